@@ -459,6 +459,52 @@ def prop_C20(tier, seed, rng):
                      "Add is not called concurrently with Wait (Wait holds the WatchSet mutex)"])
 
 
+def alg_refinement(limit):
+    """Post-pass for the rec families: are the logs behaviours of the ALGORITHM model Reconciler.tla
+    (trace/RecAlgTrace.tla)?  Scope: single (non-batch) operations.  A log that is not
+    accepted means the model no longer describes the code (the design-level results obtained on it lose their
+    meaning): reported as a note, never as a violation -- the properties are judged by RecTrace.tla."""
+    def post(fam, sub):
+        import glob
+        applicable = accepted = states = 0
+        drift = []
+        t0 = time.time()
+        for trace in sorted(glob.glob(os.path.join(sub, "rec*.trace.ndjson"))):
+            bounds = trace.replace(".trace.", ".bounds.")
+            bl = [json.loads(x) for x in core.read_lines(bounds)]
+            ok = [b for b in bl if not fam.scripts[b["id"] - 1][0]["batch"]]
+            ok = ok[:max(0, limit - applicable)]
+            if not ok:
+                continue
+            b2 = bounds + ".alg"
+            with open(b2, "w") as f:
+                f.write("".join(json.dumps(b) + "\n" for b in ok))
+            r = core._validate_one("RecAlgTrace", trace, b2, "3g", 900, None)
+            if not r["ok"]:
+                raise core.MachineryError("RecAlgTrace: " + r["stdout"][-600:])
+            out = r["stdout"]
+            verd = set(int(m.group(1)) for m in core.VERDICT_RE.finditer(out))
+            hw = {int(m.group(1)): int(m.group(2)) for m in re.finditer(r'<<\s*"HW",\s*(\d+),\s*(\d+),\s*(\d+)\s*>>', out)}
+            lines = None
+            applicable += len(ok)
+            accepted += sum(1 for b in ok if b["id"] in verd)
+            states += r["distinct"]
+            for b in ok:
+                if b["id"] not in verd:
+                    if lines is None:
+                        lines = core.read_lines(trace)
+                    ln = hw.get(b["id"], b["s"])
+                    drift.append(dict(script=b["id"], line=ln - b["s"] + 1, event=json.loads(lines[ln - 1]) if 0 < ln <= len(lines) else None))
+        log(f"[refinement] family={fam.name} spec=RecAlgTrace (Reconciler.tla): accepted {accepted} of {applicable} logs, "
+            f"states={states} {time.time()-t0:.1f}s")
+        for d in drift[:3]:
+            log(f"[note] model drift: the log of script {d['script']} (family {fam.name}) is not a behaviour of Reconciler.tla; "
+                f"first step without a counterpart: event {d['line']}: {json.dumps(d['event'])[:300]}")
+        return dict(algorithm_refinement=dict(spec="trace/RecAlgTrace.tla", applicable=applicable, accepted=accepted,
+                                              states=states, rejected=[dict(script=d["script"], event=d["line"]) for d in drift[:20]]))
+    return post
+
+
 def _rec_prop(prop, rule):
     def fn(tier, seed, rng):
         import rec_gen
@@ -469,13 +515,14 @@ def _rec_prop(prop, rule):
                        dict(mutant_check("Reconciler", "MCReconciler_staleRetry.cfg", "Prop_C15_StatusOnly"), states=0, transitions=0),
                        dict(mutant_check("Reconciler", "MCReconciler_driftOrig.cfg", "Inv_C16_LowWatermark"), states=0, transitions=0)]
         n = 1 if quick else 20
-        fams = [Family("general", "rec", "RecTrace", rec_gen.generate("general", 250 * n, seed * 53 + int(prop[1:]))),
-                Family("backoff", "rec", "RecTrace", rec_gen.generate("backoff", 120 * n, seed * 59 + int(prop[1:]))),
-                Family("inflight", "rec", "RecTrace", rec_gen.generate("inflight", 200 * n, seed * 61 + int(prop[1:]))),
-                Family("retrywindow", "rec", "RecTrace", rec_gen.generate("retrywindow", 250 * n, seed * 71 + int(prop[1:]))),
-                Family("lowwatermark", "rec", "RecTrace", rec_gen.generate("lowwatermark", 150 * n, seed * 73 + int(prop[1:]))),
-                Family("refresh", "rec", "RecTrace", rec_gen.generate("refresh", 120 * n, seed * 79 + int(prop[1:]))),
-                Family("sharedset", "rec", "RecTrace", rec_gen.generate("sharedset", 150 * n, seed * 83 + int(prop[1:])))]
+        post = alg_refinement(150 if quick else 1000)
+        fams = [Family("general", "rec", "RecTrace", rec_gen.generate("general", 250 * n, seed * 53 + int(prop[1:])), post=post),
+                Family("backoff", "rec", "RecTrace", rec_gen.generate("backoff", 120 * n, seed * 59 + int(prop[1:])), post=post),
+                Family("inflight", "rec", "RecTrace", rec_gen.generate("inflight", 200 * n, seed * 61 + int(prop[1:])), post=post),
+                Family("retrywindow", "rec", "RecTrace", rec_gen.generate("retrywindow", 250 * n, seed * 71 + int(prop[1:])), post=post),
+                Family("lowwatermark", "rec", "RecTrace", rec_gen.generate("lowwatermark", 150 * n, seed * 73 + int(prop[1:])), post=post),
+                Family("refresh", "rec", "RecTrace", rec_gen.generate("refresh", 120 * n, seed * 79 + int(prop[1:])), post=post),
+                Family("sharedset", "rec", "RecTrace", rec_gen.generate("sharedset", 150 * n, seed * 83 + int(prop[1:])), post=post)]
         return design, fams, [prop], dict(
             rule=rule, nontrivial=lambda ops: any(o["op"] in ("fail", "inject") for o in ops),
             assumptions=["virtual time (testing/synctest); operations are instantaneous; refresh loop enabled in family refresh and a fifth of the other non-idle scripts",
@@ -592,6 +639,14 @@ def run_check(prop, tier):
             fam_stats.append(dict(family=fam.name, driver=fam.driver, trace_spec=fam.trace_module,
                                   scripts=len(fam.scripts), events=res["events"], validation_states=res["states"],
                                   generation=fam.gen_stats))
+            if fam.post is not None:
+                try:
+                    extra = fam.post(fam, os.path.join(scratch, fam.name))
+                except Exception as e:  # this pass never judges: whatever goes wrong in it is a note
+                    extra = dict(error=str(e)[:300])
+                    log(f"[note] post-pass of family {fam.name} did not complete: {str(e)[:200]}")
+                fam_stats[-1].update(extra)
+                states += extra.get("algorithm_refinement", {}).get("states", 0)
             for ops in fam.scripts:
                 try:
                     nt = meta["nontrivial"](ops)
